@@ -129,7 +129,7 @@ def run(ck, replay=None, pid=PID, classes=CLASSES_HERE, pred=None, what=WHAT, wa
             for step in d['steps']:
                 if step.get('skipped'):
                     continue
-                step['_ref'] = d.get('ref')
+                step['_ref'] = d.get('ref'); step['_line'] = line
                 for msg in pred(cls, n, nev, ncv, step):
                     if msg == 'KNOWN:F3':
                         if known_f3_applies(exe):
